@@ -37,8 +37,10 @@ def config_strategy(flavour="mixed"):
         nb = draw(st.integers(1, 2))
         group = draw(st.sampled_from([True, True, True, False])) if flavour != "nogroup" else False
         big = draw(st.integers(0, 4)) == 0
-        buf = draw(st.sampled_from([64, 300, 4096] if not big else [64, 300]))
-        maxbuf = draw(st.sampled_from([None, None, buf, buf * 16, 2 ** 20 * 2]))
+        buf = draw(st.sampled_from([64, 300, 4096, 4096, 65537, 2 ** 20, 2 ** 20 + 1] if not big else [64, 300]))
+        maxbuf = draw(st.sampled_from([None, None, buf, buf * 16, 2 ** 20 * 2, 2 ** 20 * 3]))
+        if maxbuf is not None and maxbuf < buf:
+            maxbuf = buf
         init = draw(st.sampled_from([0.05, 0.1, 1.0]))
         return {
             "brokers": nb, "topics": [{"name": TOPIC, "leaders": [draw(st.integers(1, nb))], "magic": draw(st.sampled_from([0, 1]))}],
@@ -70,7 +72,7 @@ class Invocation(object):
 class CONSEngine(Engine):
     NAME = "CONS"
     FLAVOUR = "mixed"
-    MACROS = ["steady", "steady", "asyncoverlap", "commitretry", "stopmid", "shutdownmid", "oor", "bigmsg", "failfetch", "crash"]
+    MACROS = ["steady", "steady", "asyncoverlap", "commitretry", "stopmid", "shutdownmid", "oor", "bigmsg", "failfetch", "failempty", "crash"]
     MACRO_ONE_IN = 5
 
     @classmethod
@@ -275,7 +277,16 @@ class CONSEngine(Engine):
         if kind == "oor":
             return [start, ["run", 40], app, app, ["truncate", draw(st.integers(1, 6))], ["wait", 2], ["run", 40]]
         if kind == "bigmsg":
-            return [start, ["run", 30], ["append", False, 1, draw(st.sampled_from([400, 5000, 70000]))], app, ["wait", 2], ["run", 30], ["wait", 2], ["run", 30]]
+            return [start, ["run", 30], ["append", False, 1, draw(st.sampled_from([400, 5000, 70000] if self.config["buffer"] < 65537 else [70000, 1100000, 2200000, 4200000]))], app, ["wait", 2], ["run", 30], ["wait", 2], ["run", 30]]
+        if kind == "failempty":
+            # failures, then an EMPTY successful fetch (nothing new in the log), then a failure again: the delay must have been reset
+            c1 = draw(st.sampled_from(FETCH_CODES))
+            k = draw(st.integers(1, 3))
+            seq = [start, ["run", 40], ["wait", 2], ["run", 20], ["err", b, "fetch", c1, k]]
+            for _ in range(k + 1):
+                seq += [["wait", draw(st.sampled_from([2, 3, 4]))], ["run", 12]]
+            seq += [["wait", 2], ["run", 12], ["err", b, "fetch", draw(st.sampled_from(FETCH_CODES)), 1], ["wait", 2], ["run", 12], ["wait", 4], ["run", 12], ["wait", 4], ["run", 12]]
+            return seq
         if kind == "failfetch":
             return [start, ["run", 30], ["err", b, "fetch", draw(st.sampled_from(FETCH_CODES)), draw(st.integers(1, 4))], app, ["wait", 1], ["run", 10], ["timer"], ["run", 10], ["timer"], ["run", 10],
                     ["timer"], ["run", 10], ["timer"], ["run", 20]]
@@ -623,7 +634,7 @@ class CONSEngine(Engine):
                     if info["api"] == "fetch" and info.get("fetch", {}).get((TOPIC, 0), (0,))[0] == 1:
                         # only if the client still waits for it (a reply after the client-side timeout is discarded)
                         recs = [x for x in self._cfetches if x["corr"] == info["corr"] and x["inc"] == self.incarnation]
-                        if recs and w.now < recs[-1]["time"] + self.timeout - 1e-9:
+                        if recs and recs[-1].get("run") is run and w.now < recs[-1]["time"] + self.timeout - 1e-9:
                             self._out_of_range(run, info)
                     elif info["api"] == "list_offsets" and run.get("oor_evseq") is not None and info.get("offsets_answer"):
                         run["reset_pos"] = info["offsets_answer"][0]
@@ -655,32 +666,58 @@ class CONSEngine(Engine):
                 self._deliver(run, off, key, value, inv)
 
     def _resolve_start(self, run):
-        """position the run starts from, as far as ground truth allows; None = not yet known"""
+        """position the run starts from, as far as ground truth allows; None = not (yet) known.
+        Only answers that reached the client before its deadline for that request count (a later one is discarded by the client)."""
         if run["pos"] is not None:
             return run["pos"]
+        if run.get("pos_unresolvable"):
+            return None
         kind = run["kind"]
-        replies = [r for r in self.cluster.requests if r["seq"] > run.get("seq0", 0) and r["reply"].get("deliv_evseq") is not None]
+
+        def timely_answers(api):
+            for rec in self._creqs:
+                if rec["run"] is not run or rec["api"] != api:
+                    continue
+                rep = self._reply_of(rec)
+                if rep is None:
+                    continue
+                dl = rec["time"] + self.timeout
+                if abs(rep["deliv_time"] - dl) < 1e-6:
+                    yield rec, rep, None  # delivered at the deadline instant: which of the two won is a scheduling detail
+                elif rep["deliv_time"] < dl:
+                    yield rec, rep, True
+
         if kind in ("earliest", "latest"):
             want = -2 if kind == "earliest" else -1
-            for r in replies:
-                if r["req"]["api"] == "list_offsets" and r["req"]["topics"][0]["partitions"][0]["time"] == want and r["reply"].get("offsets_answer"):
-                    run["pos"] = r["reply"]["offsets_answer"][0]
+            for rec, rep, ok in timely_answers("list_offsets"):
+                if rec["time_arg"] == want and rep.get("offsets_answer"):
+                    if ok is None:
+                        run["pos_unresolvable"] = True
+                        return None
+                    run["pos"] = rep["offsets_answer"][0]
                     break
         else:
-            for r in replies:
-                if r["req"]["api"] == "offset_fetch" and r["reply"].get("offsets", {}).get((TOPIC, 0), (1, 0))[0] == 0:
-                    off = r["reply"]["offsets"][(TOPIC, 0)][1]
-                    if off >= 0:
-                        run["pos"] = off + 1
-                        run["committed_before"] = off
-                    else:
-                        run["fallback"] = -1 if self.config["reset"] == -1 else -2
-                        run["kind2"] = "latest" if run["fallback"] == -1 else "earliest"
-                    break
+            if run.get("fallback") is None and run.get("committed_before") is None:
+                for rec, rep, ok in timely_answers("offset_fetch"):
+                    if rep.get("offsets", {}).get((TOPIC, 0), (1, 0))[0] == 0:
+                        if ok is None:
+                            run["pos_unresolvable"] = True
+                            return None
+                        off = rep["offsets"][(TOPIC, 0)][1]
+                        if off >= 0:
+                            run["pos"] = off + 1
+                            run["committed_before"] = off
+                        else:
+                            run["fallback"] = -1 if self.config["reset"] == -1 else -2
+                            run["kind2"] = "latest" if run["fallback"] == -1 else "earliest"
+                        break
             if run["pos"] is None and run.get("fallback") is not None:
-                for r in replies:
-                    if r["req"]["api"] == "list_offsets" and r["req"]["topics"][0]["partitions"][0]["time"] == run["fallback"] and r["reply"].get("offsets_answer"):
-                        run["pos"] = r["reply"]["offsets_answer"][0]
+                for rec, rep, ok in timely_answers("list_offsets"):
+                    if rec["time_arg"] == run["fallback"] and rep.get("offsets_answer"):
+                        if ok is None:
+                            run["pos_unresolvable"] = True
+                            return None
+                        run["pos"] = rep["offsets_answer"][0]
                         break
         return run["pos"]
 
@@ -708,7 +745,15 @@ class CONSEngine(Engine):
         # that have since been removed; skipping them is only allowed through the out-of-range reset handled above)
         allrec = dict((r["offset"], r) for b in self.part.batches for r in b.records)
         nxt = [allrec[o] for o in sorted(allrec) if o >= pos]
+        first_after_commit = not run["delivered"] and run.get("committed_before") is not None and pos == run["committed_before"] + 1
         run["delivered"].append(off)
+        if first_after_commit:
+            # C03 (last sentence): a consumer started from the committed position resumes at exactly the first message after it
+            self.nt.add("resumed-from-committed-offset")
+            want = nxt[0]["offset"] if nxt else None
+            if want != off:
+                self.note("C03.resume-exact", "C03.resume-%s" % ("redelivers-committed" if off <= run["committed_before"] else "skips" if want is not None and off > want else "phantom"),
+                          "run #%d started from the committed position: the offset store holds %d, the first message delivered is %d, the first log record after the committed one is %r" % (run["no"], run["committed_before"], off, want))
         if not nxt or nxt[0]["offset"] != off:
             want = nxt[0]["offset"] if nxt else None
             kind = "repeat-or-old" if off < pos else "skipped" if want is not None and off > want else "phantom"
@@ -753,7 +798,7 @@ class CONSEngine(Engine):
                     self.note("C14.reset-policy", "C14.out-of-range-not-reported", "out-of-range answer with no reset policy: the start() Deferred is %s %.80r, expected a failure with OffsetOutOfRangeError" % (wt.state, wt.value))
                 run["ended_by_error_evseq"] = self.evseq
                 continue
-            nxt = [x for x in self.consumer_writes if x["evseq"] > run["oor_evseq"] and x.get("api") in ("fetch", "list_offsets", "offset_fetch") and x["inc"] == run["inc"] and not x.get("resend")]
+            nxt = [x for x in self.consumer_writes if x["evseq"] > run["oor_evseq"] and x.get("api") in ("fetch", "list_offsets", "offset_fetch") and x["inc"] == run["inc"] and x.get("run") is run and not x.get("resend")]
             if not nxt:
                 continue
             run["oor_policy_checked"] = True
@@ -793,11 +838,19 @@ class CONSEngine(Engine):
             mx = self.config["max_buffer"]
             self.labels.add("fetch-size-too-small")
             if mx is not None and b >= mx:
-                rec["_buf_checked"] = True
+                # at the maximum: the run must end with ConsumerFetchSizeTooSmall (handling of the answer may be parked
+                # behind a running processor, so the verdict waits until the run ends or the consumer moves on)
                 wt = run["watch"]
                 self.nt.add("buffer-at-maximum")
-                if wt.state == "pending" and self.evseq > rep["deliv_evseq"]:
-                    self.note("C14.buffer-growth", "C14.buffer-max-not-reported", "message needs more than max_buffer_size=%d but the start() Deferred did not fail" % mx)
+                if wt.state != "pending":
+                    rec["_buf_checked"] = True
+                    if wt.state == "err" and wt.value.check(ConsumerFetchSizeTooSmall):
+                        self.nt.add("buffer-at-maximum-reported")
+                    continue
+                later = [x for x in fetches[idx + 1:] if x["run"] is run]
+                if later:
+                    rec["_buf_checked"] = True
+                    self.note("C14.buffer-growth", "C14.buffer-max-not-reported", "message at offset %d needs more than max_buffer_size=%d but the start() Deferred did not fail: the consumer went on to fetch offset %d with %d bytes" % (rec["offset"], mx, later[0]["offset"], later[0]["max_bytes"]))
                 continue
             later = [x for x in fetches[idx + 1:] if x["run"] is run]
             if not later:
@@ -985,7 +1038,9 @@ class CONSEngine(Engine):
                 code = rep.get("offsets", {}).get((TOPIC, 0), (None,))[0]
             elif rec["api"] == "list_offsets":
                 code = rep.get("offsets_code")
-            if code is None:
+            if code is None or rep["deliv_time"] > rec["time"] + self.timeout - 1e-9:
+                # no itemised answer, or the reply came after the client-side timeout (discarded by the client: the
+                # request failed by timeout, which the chain logic below treats as "fate unknown")
                 rec["_delay_checked"] = True
                 continue
             rec["outcome"] = code
@@ -1014,6 +1069,21 @@ class CONSEngine(Engine):
             if j < 0 or reqs[j]["run"] is not rec["run"] or reqs[j].get("outcome") != 0:
                 # the chain of failures must start right after a request known to have succeeded in this run; otherwise
                 # failures the harness cannot see (a timed-out metadata load, a dropped reply) may have preceded it
+                continue
+            # ... and must be gap-free: each request of the chain was written right after its predecessor's outcome (plus
+            # the retry delay already verified), so nothing invisible (timeouts of requests never written) lies between
+            chain = reqs[j:idx + 1]
+            gapless = True
+            for a, b2 in zip(chain, chain[1:]):
+                ra = self._reply_of(a)
+                if ra is None:
+                    gapless = False
+                    break
+                allowed = 0.3 if a.get("outcome") == 0 else min(cfg["retry_init"] * (factor ** 12), cfg["retry_max"]) + 0.3
+                if b2["time"] - ra["deliv_time"] > allowed:
+                    gapless = False
+                    break
+            if not gapless:
                 continue
             if code == 1 and rec["api"] == "fetch":
                 continue  # out of range: governed by the reset policy
